@@ -382,7 +382,8 @@ EvFn(node, st0, ctx) ==
           \* qualifiers: once (at most one execution per run; its marker is a hash-named variable,
           \* modelled here by st.onceDone), onmatch handled above
           LET env == [vars |-> st.vars, line |-> TextsOf(st.line), headers |-> st.headers, meta |-> ctx.meta, k |-> ctx.k,
-                      matchCount |-> st.matchCount, scanCount |-> st.scanCount, totalData |-> ctx.totalData]
+                      matchCount |-> st.matchCount, scanCount |-> st.scanCount, totalData |-> ctx.totalData,
+                      valid |-> st.valid, stopped |-> st.stopped]
               out == IF node.tmpl = <<>> THEN A(1).s ELSE Emitted(node.tmpl, env)
               blocked == Has(node, "once") /\ node.name_q \in st.onceDone
           IN IF blocked THEN R(None, D, st)
